@@ -281,3 +281,48 @@ def parser_valued(repo: Repo, f: Func, name: str, depth: int = 0) -> bool:
                         if isinstance(r, ast.Return) and isinstance(r.value, ast.Call) and call_name(r.value) in ('get_parser_by_name', 'processtypes'):
                             return True
     return False
+
+
+def scope_nodes(repo: Repo, f: Func, depth: int = 1) -> List[ast.AST]:
+    """The nodes of f, of the module-level / same-class private helpers it calls (one level by default) and of the module constants they read:
+    where a rule asks "does the implementation of f mention X", an extracted helper or a hoisted constant is still the implementation of f."""
+    out: List[ast.AST] = list(f.walk())
+    funcs = [f]
+    frontier = [f]
+    for _ in range(depth):
+        nxt = []
+        for h in frontier:
+            names = {call_name(c) for c in calls_in(h)}
+            for g in repo.funcs.values():
+                if g.mod is f.mod and g.name in names and g not in funcs and g.name.startswith('_') and not g.name.startswith('__') and \
+                        (g.cls is None or g.cls is f.cls) and g.outer is None:
+                    funcs.append(g)
+                    nxt.append(g)
+                    out += list(g.walk())
+        frontier = nxt
+    read = {x.id for x in out if isinstance(x, ast.Name)} | {x.attr for x in out if isinstance(x, ast.Attribute)}
+    for k, v in f.mod.assigns.items():
+        if k in read:
+            out += list(ast.walk(v))
+    if f.cls is not None:
+        for k, v in f.cls.aliases.items():
+            if k in read:
+                out += list(ast.walk(v))
+    return out
+
+
+def tuple_helpers(repo: Repo, f: Func) -> List[Tuple[Func, dict]]:
+    """Private helpers of f's class / module whose returned tuple is unpacked by f: [(helper, {helper local -> local of f})]."""
+    out = []
+    for a in f.walk():
+        if isinstance(a, ast.Assign) and isinstance(a.targets[0], ast.Tuple) and isinstance(a.value, ast.Call):
+            for g in repo.funcs.values():
+                if g.mod is f.mod and g.name == call_name(a.value) and (g.cls is f.cls or g.cls is None) and g is not f:
+                    ren = {}
+                    for r in g.walk():
+                        if isinstance(r, ast.Return) and isinstance(r.value, ast.Tuple) and len(r.value.elts) == len(a.targets[0].elts):
+                            for x, t in zip(r.value.elts, a.targets[0].elts):
+                                if isinstance(x, ast.Name) and isinstance(t, ast.Name):
+                                    ren[x.id] = t.id
+                    out.append((g, ren))
+    return out
